@@ -203,8 +203,11 @@ func c14Scenarios(maxRecv, maxSend int, scripts []string) []hpScenario {
 	phases := []string{"before-route", "after-route", "after-choose-host"}
 	verdicts := map[string][]string{
 		"before-route":      {"continue", "stop", "terminate", "hijack", "hijack-stop", "direct"},
-		"after-route":       {"continue", "stop", "terminate", "hijack", "hijack-stop", "direct", "rematch", "rematch-noroute"},
-		"after-choose-host": {"continue", "stop", "terminate", "hijack", "hijack-stop", "direct", "rechoose", "rechoose-nohost"},
+		// "rechoose" from an after-route filter and "rematch" from an after-choose-host filter are the
+		// two verdicts outside their documented phase: the statement does not say whether they are
+		// honoured (this tree ignores them), only that an honoured one resumes at the requesting filter
+		"after-route":       {"continue", "stop", "terminate", "hijack", "hijack-stop", "direct", "rematch", "rematch-noroute", "rechoose"},
+		"after-choose-host": {"continue", "stop", "terminate", "hijack", "hijack-stop", "direct", "rechoose", "rechoose-nohost", "rematch"},
 	}
 	var recvChains [][]hpFilter
 	var gen func(cur []hpFilter, n int)
@@ -312,6 +315,7 @@ func c14CheckReq(sc *hpScenario, k int, obs *hpObs, report func(kind, detail str
 	lastIdx, lastPhase := -1, ""
 	resumeAt := -1 // index that asked for re-match/re-choose: the next pass of its phase must start there
 	resumePhase := ""
+	resumeOptional := false // the verdict was given outside its documented phase: it may be ignored
 	for _, e := range recv {
 		switch {
 		case e.phase != lastPhase:
@@ -319,6 +323,10 @@ func c14CheckReq(sc *hpScenario, k int, obs *hpObs, report func(kind, detail str
 				report("receive filters: phase order violated", fmt.Sprintf("phase %s after %s without a re-match/re-choose: %s", e.phase, lastPhase, logStr))
 			}
 			lastIdx = -1
+		}
+		if resumeAt >= 0 && resumeOptional && (phaseRank[e.phase] > phaseRank[resumePhase] || (e.phase == resumePhase && e.idx > resumeAt)) {
+			// a verdict outside its documented phase was ignored: the pass simply went on
+			resumeAt = -1
 		}
 		if resumeAt >= 0 && e.phase == resumePhase {
 			if e.idx != resumeAt {
@@ -342,11 +350,21 @@ func c14CheckReq(sc *hpScenario, k int, obs *hpObs, report func(kind, detail str
 		}
 		if e.ret == string(api.StreamFilterReMatchRoute) || e.ret == string(api.StreamFilterReChooseHost) {
 			resumeAt, resumePhase = e.idx, e.phase
+			resumeOptional = (e.ret == string(api.StreamFilterReMatchRoute)) != (e.phase == "after-route")
 		}
 	}
 	// --- (1b) configured order leaves nobody out: a pass starts at the first configured filter of
 	// its phase (or at the filter that asked for the re-match / re-choose) and goes on with the
 	// next configured filter of that phase while the verdicts are "continue"
+	// a re-match / re-choose verdict given outside its documented phase is ignored by the proxy but
+	// still ends the chain's pass with the cursor left where it was (pkg/streamfilter/chain.go
+	// RunReceiverFilter): what is skipped because of THAT is named apart in the finding keys
+	oop := ""
+	for _, e := range recv {
+		if (e.ret == string(api.StreamFilterReMatchRoute) && e.phase != "after-route") || (e.ret == string(api.StreamFilterReChooseHost) && e.phase != "after-choose-host") {
+			oop = " [after a re-match / re-choose verdict given outside its documented phase]"
+		}
+	}
 	phaseIdx := map[string][]int{}
 	for i, f := range filters {
 		if f.Phase != "send" {
@@ -366,13 +384,13 @@ func c14CheckReq(sc *hpScenario, k int, obs *hpObs, report func(kind, detail str
 		switch {
 		case samePass:
 			if want := nextOf(e.phase, recv[n-1].idx); want >= 0 && e.idx > want {
-				report("receive filter skipped: a later filter of the phase ran although an earlier configured one did not", fmt.Sprintf("phase %s: filter %d ran after filter %d, configured filter %d was jumped over: %s", e.phase, e.idx, recv[n-1].idx, want, logStr))
+				report("receive filter skipped: a later filter of the phase ran although an earlier configured one did not"+oop, fmt.Sprintf("phase %s: filter %d ran after filter %d, configured filter %d was jumped over: %s", e.phase, e.idx, recv[n-1].idx, want, logStr))
 			}
 		case n > 0 && (recv[n-1].ret == string(api.StreamFilterReMatchRoute) || recv[n-1].ret == string(api.StreamFilterReChooseHost)) && recv[n-1].phase == e.phase:
 			// resumed pass: checked above
 		default:
 			if first := phaseIdx[e.phase][0]; e.idx > first {
-				report("receive filter skipped: a later filter of the phase ran although an earlier configured one did not", fmt.Sprintf("phase %s: the pass starts at filter %d, configured filter %d was jumped over: %s", e.phase, e.idx, first, logStr))
+				report("receive filter skipped: a later filter of the phase ran although an earlier configured one did not"+oop, fmt.Sprintf("phase %s: the pass starts at filter %d, configured filter %d was jumped over: %s", e.phase, e.idx, first, logStr))
 			}
 		}
 	}
@@ -387,7 +405,7 @@ func c14CheckReq(sc *hpScenario, k int, obs *hpObs, report func(kind, detail str
 		}
 		for i, f := range filters {
 			if f.Phase != "send" && !ran[i] {
-				report("request forwarded upstream although a configured receive filter never ran", fmt.Sprintf("filter %d (%s) has no call; filters: %s", i, f.Phase, logStr))
+				report("request forwarded upstream although a configured receive filter never ran"+oop, fmt.Sprintf("filter %d (%s) has no call; filters: %s", i, f.Phase, logStr))
 				break
 			}
 		}
